@@ -305,6 +305,15 @@ def check_resources(ctx, pid):
     }
     if health_only:
         cov["health_checks"] = cov["committed_transactions_checked"]
+        # the container histories of Containers.tla (arrays / dictionaries incl. 300-character dictionary keys
+        # that atree stores in their own slabs, nested dictionaries, moves between two accounts) are monitored too
+        from checks.vals import c20_histories_with_health
+        nh, nc, cfails = c20_histories_with_health(ctx)
+        for f in cfails:
+            ctx.report(f["sig"], "container history (Containers.tla): " + f["msg"], f.get("replay"))
+        cov["container_histories_monitored"] = nh
+        cov["container_commits_checked"] = nc
+        cov["health_checks"] += nc
     return ctx.finish(cov, assumptions=[
         "host = repo's TestRuntimeInterface/TestLedger (harness/host) with atree validation enabled",
         "resource universe of the model: two resource types implementing one interface, each with an optional field, an array field and a dictionary field; nesting depth <= 2",
